@@ -537,9 +537,10 @@ def node_instance(rng, cls, focus=False):
             d["flow"] = f
         G.add_node(v, **d)
     es = list(B.edges); rng.shuffle(es)
+    pdecoy = 0.6 if rng.random() < 0.2 else 0.15      # decoy-heavy instances: most original edges carry a value under the weight attribute's name
     for u, v in es:
         d = {}
-        if rng.random() < 0.15: d["flow"] = rng.randint(0, 9)     # junk on an original edge: must be ignored
+        if rng.random() < pdecoy: d["flow"] = rng.randint(0, 9)   # decoy on an original edge: copied to (u.1, v.0), must be ignored
         G.add_edge(u, v, **d)
     kw = {}
     if has_k:
